@@ -208,10 +208,10 @@ Proof. cbv zeta. repeat split; vm_compute; reflexivity. Qed.
 
 (* K19: sync of a dependency-installed package never reaches the declared state *)
 Lemma K19_sync_refuted :
-  let d := {| installed := ["a"%string]; explicit := []; upgradable := false |} in
+  let d := {| installed := ["a"%string]; explicit := []; sysver := 0; dbver := 0; upstream := 0 |} in
   let p := {| pp_names := ["a"%string]; pp_state := PSync; pp_update_cache := false; pp_upgrade := false |} in
   let r := pacman p false {| pdb := d; plog := [] |} in
-  pr_changed (fst r) = true /\ pdb (snd r) = {| installed := ["a"%string]; explicit := []; upgradable := false |}
+  pr_changed (fst r) = true /\ pdb (snd r) = {| installed := ["a"%string]; explicit := []; sysver := 0; dbver := 0; upstream := 0 |}
   /\ pdeclared_b p (pdb (snd r)) = false /\ known_sync_dependency p d = true.
 Proof. cbv zeta. repeat split; vm_compute; reflexivity. Qed.
 
